@@ -19,7 +19,7 @@ type Job struct {
 	Args     []string
 	Setup    string // optional function run once per worker before any path (e.g. extensions.Init wrapper)
 	MaxSteps int64
-	MaxDec   int // bound on decisions per path (default 2000)
+	MaxDec   int  // bound on decisions per path (default 2000)
 	MapOrder bool // explore Go map iteration orders as choice points
 	NoAtoms  bool // execute number formatting digit by digit instead of atoms
 }
@@ -35,17 +35,17 @@ type VioAgg struct {
 }
 
 type JobResult struct {
-	Job         Job
-	Paths       int
-	Completed   int // paths that ran to the end of the harness
-	Ends        map[string]int
-	Vio         map[string]*VioAgg
-	Reaches     map[string]int
-	Notes       map[string]int
-	Steps       int64
-	Decisions   int64
-	UnknownQ    int
-	NotExplored int // pending prefixes dropped because the time budget ran out
+	Job             Job
+	Paths           int
+	Completed       int // paths that ran to the end of the harness
+	Ends            map[string]int
+	Vio             map[string]*VioAgg
+	Reaches         map[string]int
+	Notes           map[string]int
+	Steps           int64
+	Decisions       int64
+	UnknownQ        int
+	NotExplored     int // pending prefixes dropped because the time budget ran out
 	NontrivialPaths int
 	AssertsUnsat    int64
 	AssertsConst    int64
